@@ -120,13 +120,19 @@ class Deque(List):
 
 
 class Dict(_RefT):
-    def __init__(self, k, v, counter=False): self.k, self.v, self.counter = k, v, counter
+    def __init__(self, k, v, counter=False, default=False):
+        # default=True: collections.defaultdict whose factory builds an empty container of type v
+        self.k, self.v, self.counter, self.default = k, v, counter, default
     def key(self): return (self.k, self.v)
     def name(self): return f"Dict_{self.k.name()}_{self.v.name()}"
 
 
 def Counter(k):
     return Dict(k, Int, counter=True)
+
+
+def DefaultDict(k, v):
+    return Dict(k, v, default=True)
 
 
 class Set(_RefT):
@@ -154,7 +160,7 @@ def parse_type(s, env=None):
     if isinstance(s, T):
         return s
     g = dict(Int=Int, Bool=Bool, NoneT=NoneT, Str=Str, Opt=Opt, Seq=Seq, Tup=Tup, List=List, Deque=Deque, Dict=Dict,
-             Set=Set, Obj=Obj, Opaque=Opaque, Counter=Counter, Fun=Fun)
+             Set=Set, Obj=Obj, Opaque=Opaque, Counter=Counter, Fun=Fun, DefaultDict=DefaultDict)
     if env:
         g.update(env)
     return eval(s, g)
